@@ -287,24 +287,31 @@ class Parser:
             number = token
             if self.current().kind == TokenKind.RBRACE:
                 self.pos += 1
-                return RepeatExact(expr, int(number.value))
+                return RepeatExact(expr, self.parse_int(number))
 
             self.eat(TokenKind.COMMA)
 
             if self.current().kind == TokenKind.RBRACE:
                 self.pos += 1
-                return RepeatMin(expr, int(number.value))
+                return RepeatMin(expr, self.parse_int(number))
 
             stop = self.eat(TokenKind.NUMBER)
             self.eat(TokenKind.RBRACE)
-            return RepeatMinMax(expr, int(number.value), int(stop.value))
+            return RepeatMinMax(expr, self.parse_int(number), self.parse_int(stop))
 
         if kind == TokenKind.COMMA:
             number = self.eat(TokenKind.NUMBER)
             self.eat(TokenKind.RBRACE)
-            return RepeatMax(expr, int(number.value))
+            return RepeatMax(expr, self.parse_int(number))
 
         raise PestGrammarSyntaxError("expected a number or a comma", token=token)
+
+    def parse_int(self, token: Token) -> int:
+        try:
+            return int(token.value)
+        except ValueError as err:
+            # More digits than sys.get_int_max_str_digits() allows.
+            raise PestGrammarSyntaxError("number too large", token=token) from err
 
     def parse_peek_expression(self, tag: str | None) -> Expression:
         if self.current().kind != TokenKind.LBRACKET:
@@ -312,14 +319,14 @@ class Parser:
 
         self.eat(TokenKind.LBRACKET)
         if self.current().kind == TokenKind.INTEGER:
-            start: str | None = self.next().value
+            start: str | None = str(self.parse_int(self.next()))
         else:
             start = None
 
         self.eat(TokenKind.RANGE_OP)
 
         if self.current().kind == TokenKind.INTEGER:
-            stop: str | None = self.next().value
+            stop: str | None = str(self.parse_int(self.next()))
         else:
             stop = None
 
